@@ -118,6 +118,7 @@ void save_binary (program_t * prog, mem_block_t * includes, mem_block_t * patche
     {
       debug_perror ("fwrite()", file_name);
       fclose (f);
+      unlink (file_name);
       return;
     }
 
@@ -263,7 +264,15 @@ void save_binary (program_t * prog, mem_block_t * includes, mem_block_t * patche
   fwrite ((char *) &bin_count, sizeof (bin_count), 1, f);
   fwrite (patches->block, patches->current_size, 1, f);
 
-  fclose (f);
+  /* A full disk or an I/O error anywhere above: what reached the file is only the beginning
+   * of a binary, and its date is newer than every source.  It must not stay. */
+  i = ferror (f);
+  if (fclose (f) != 0 || i)
+    {
+      debug_perror ("writing saved binary failed", file_name);
+      unlink (file_name);
+      return;
+    }
   opt_trace (TT_COMPILE|1, "done: /%s", file_name);
 }				/* save_binary() */
 
@@ -801,57 +810,87 @@ program_t *load_binary (const char *name) {
 
   /*
    * [READ_LINE_NUMBERS]
-   * Read line numbers.
+   * Read line numbers.  The section is always written: a file that ends here was cut off
+   * while it was saved (the driver died, the disk was full).
    */
+  p->file_info = NULL;
   if (fread ((char *) &bin_count, sizeof (bin_count), 1, f) == 1)
     {
       len = (size_t) bin_count;
       p->file_info = (unsigned short *) DXALLOC (len, TAG_LINENUMBERS, "load binary");
-      if (fread ((char *) p->file_info, len, 1, f) == 1)
+      if (fread ((char *) p->file_info, len, 1, f) != 1)
         {
-          p->line_info = (unsigned char *) &p->file_info[p->file_info[1]];
-        }
-      else
-        {
-          opt_trace (TT_COMPILE|1, "line number info corrupted.");
-          i = p->num_functions_defined;
-          while (i-- > 0)
-            {
-              free_string (p->function_table[i].name);
-            }
-          i = p->num_variables_defined;
-          while (i-- > 0)
-            {
-              free_string (p->variable_table[i]);
-            }
-          i = p->num_strings;
-          while (i-- > 0)
-            {
-              free_string (p->strings[i]);
-            }
-          fclose (f);
-          free_string (p->name);
           FREE (p->file_info);
-          FREE (p);
-          FREE (buf);
-          return OUT_OF_DATE;
+          p->file_info = NULL;
         }
+    }
+  if (p->file_info)
+    {
+      p->line_info = (unsigned char *) &p->file_info[p->file_info[1]];
+    }
+  else
+    {
+      opt_trace (TT_COMPILE|1, "line number info corrupted.");
+      i = p->num_functions_defined;
+      while (i-- > 0)
+        {
+          free_string (p->function_table[i].name);
+        }
+      i = p->num_variables_defined;
+      while (i-- > 0)
+        {
+          free_string (p->variable_table[i]);
+        }
+      i = p->num_strings;
+      while (i-- > 0)
+        {
+          free_string (p->strings[i]);
+        }
+      fclose (f);
+      free_string (p->name);
+      FREE (p);
+      FREE (buf);
+      return OUT_OF_DATE;
     }
   opt_trace (TT_COMPILE|3, "loaded line number info ok.");
 
   /*
    * [READ_PATCHES]
-   * Read patch information and fix up program.
+   * Read patch information and fix up program.  Without its patches the program holds the
+   * addresses of the process that saved it: a binary whose patch section is missing or cut
+   * short is as unusable as one with a damaged table.
    */
+  i = 0;
   if (fread ((char *) &bin_count, sizeof (bin_count), 1, f) == 1)
     {
       len = (size_t) bin_count;
       ALLOC_BUF (len);
-      if (fread (buf, len, 1, f) == 1)
+      if (len == 0 || fread (buf, len, 1, f) == 1)
         {
           /* fix up some stuff */
-          patch_in (p, (short *) buf, len / sizeof (short));
+          if (len > 0)
+            patch_in (p, (short *) buf, len / sizeof (short));
+          i = 1;
         }
+    }
+  if (!i)
+    {
+      opt_trace (TT_COMPILE|1, "patch info corrupted.");
+      i = p->num_functions_defined;
+      while (i-- > 0)
+        free_string (p->function_table[i].name);
+      i = p->num_variables_defined;
+      while (i-- > 0)
+        free_string (p->variable_table[i]);
+      i = p->num_strings;
+      while (i-- > 0)
+        free_string (p->strings[i]);
+      fclose (f);
+      free_string (p->name);
+      FREE (p->file_info);
+      FREE (p);
+      FREE (buf);
+      return OUT_OF_DATE;
     }
   opt_trace (TT_COMPILE|3, "applied patches ok.");
 
